@@ -44,7 +44,7 @@ func (r *rng) perm(vals []int) []int {
 
 // cfgFill turns a word over the alphabet into a scenario, drawing the values.
 func cfgFill(r *rng, kind string, word []cfgLetter) CfgScenario {
-	retries := r.perm([]int{1, 2, 3, 4, 5, 6})
+	retries := r.perm([]int{1, 2, 3, 4, 5, 6, 0, -1}) // includes budgets < 1: both forms must store them alike
 	waits := r.perm([]int{0, 1000, 2000, 3000, 4000, 5000, 7000})
 	concs := r.perm([]int{-2, -1, 0, 1, 2, 3, 4})
 	nEh := 0
